@@ -575,6 +575,10 @@ func c09Run(c *core.Ctx, i int) {
 		runTextFamily(c, "concat-aliases", concatAliasSource(c.Rng), nil)
 		return
 	}
+	if i >= tailStart && i%8 == 1 { // slices: fresh outer array, shared composite elements
+		runTextFamily(c, "slice-sharing", sliceSharingSource(c.Rng), nil)
+		return
+	}
 	if i >= tailStart && i%8 == 5 {
 		runTextFamily(c, "unary-on-stored-values", unaryOnCallSource(c.Rng), nil)
 		return
